@@ -13,6 +13,16 @@ ALLOWED_AXIOMS = {
 }
 
 PROPS = {
+    "C06": {
+        "n": {"quick": 1200, "thorough": 40000},
+        "shards": 16,
+        "trusted": [
+            "lexer model: function-by-function transcription of internal/parser/lexer.go (Go UTF-8 decoding modelled in Lib/Utf8.v, unicode.IsLetter from a table generated from the toolchain's unicode package, strings.TrimSpace as explicit White_Space patterns); tied by comparing the full token stream (type, value, line/column/offset of Pos and End) on every generated input",
+            "crash / hang / time clauses for parser, analyzer, formatter and the handlers are NOT modelled: the harness runs every handler under recover() and a wall-clock budget of 250 ms + 100 us per byte (a request over budget is re-measured once before it counts)",
+        ],
+        "assumptions": ["wall-clock budgets assume the check is not starved of CPU"],
+        "explanation": "C06_next_progress / C06_lex_total for all byte strings; tie on token streams; oracle: coverage of the observed token stream, no panic, no hang, time budget per request",
+    },
     "C12": {
         "n": {"quick": 800, "thorough": 20000},
         "shards": 16,
